@@ -223,6 +223,18 @@ class Stack:
             self.helper = Svc(h["inst"])
             self.helper.transport = core.SimTransport(sim, NODE_NAME, SVC_ADDR)
             self.helper_announced = False
+        self.service = None
+        sc = cfg.get("service")
+        if sc:
+            Svc = type("SimService", (lib.service.SimpleService,), {"service_id": sc["svc"], "version_major": sc["major"], "version_minor": sc["minor"]})
+            self.service = svc = Svc(sc["inst"])
+            svc.transport = core.SimTransport(sim, NODE_NAME, SVC_ADDR)
+            su = sd.DatagramProtocolAdapter(svc, is_multicast=False)
+            sm = sd.DatagramProtocolAdapter(svc, is_multicast=True)
+            sim.open_socket(NODE_NAME, SVC_ADDR, "u", su.datagram_received, self.ctx, self.tag)
+            sim.open_socket(NODE_NAME, SVC_ADDR, "m", sm.datagram_received, self.ctx, self.tag, group=("224.224.224.246", 30500))
+            for mid, kind in sc.get("methods", {}).items():
+                svc.register_method(int(mid), self._handler(int(mid), kind))
         self.subscribed = set()
         self.findsub = set()
         self.conn_lost = False
@@ -252,6 +264,35 @@ class Stack:
                     return _orig(addr)
 
                 obj.reboot_detected = rd
+
+    def _handler(self, mid, kind):
+        sim = self.sim
+
+        def handler(msg, addr):
+            sim.rec("method", NODE_NAME, (mid, kind, addr))
+            if kind == "echo":
+                return bytes(msg.payload)
+            if kind == "empty":
+                return b""
+            if kind == "none":
+                return None
+            if kind == "malformed":
+                raise lib.service.MalformedMessageError("scripted")
+            raise core.HarnessError(kind)
+
+        return handler
+
+    def svc_setup(self):
+        """inside the running loop: eventgroups with an interval create their task on construction"""
+        sc = self.cfg["service"]
+        self.evgroups = {}
+        for g in sc.get("eventgroups", []):
+            eg = lib.service.SimpleEventgroup(self.service, g["id"], interval=g.get("interval"))
+            for ev, hx in g.get("values", {}).items():
+                eg.values[int(ev)] = bytes.fromhex(hx)
+            self.service.register_eventgroup(eg)
+            self.evgroups[g["id"]] = eg
+        self.service.start_announce(self.prot.announcer)
 
     # -- ops
     def clistener(self, name):
@@ -370,6 +411,14 @@ class Stack:
         elif f == "queue_send":
             spec, dest = a
             prot.announcer.queue_send(lib_entry(spec_entry(spec)), remote=None if dest is None else PEERS[dest])
+        elif f == "svc_setup":
+            self.svc_setup()
+        elif f == "set_value":
+            g, ev, hx = a
+            self.evgroups[g].values[ev] = bytes.fromhex(hx)
+        elif f == "notify_once":
+            g, evs = a
+            self.evgroups[g].notify_once(list(evs))
         elif f == "send_burst":
             specs, dest, count = a
             ents = [lib_entry(spec_entry(x)) for x in specs]
@@ -413,12 +462,15 @@ def execute(plan):
         "max_iterations": cfg.get("max_iterations", 200000),
         "mc_loop": cfg.get("mc_loop", False),
         "trace_timers": cfg.get("trace_timers", False),
+        "resolver": cfg.get("resolver"),
     }
     sim = core.new_sim(plan["seed"], simcfg)
     st = Stack(sim, cfg)
     rogues = [Rogue(a) for a in PEERS]
     op_exc = []
 
+    if st.service is not None:
+        sim.at(0.0, "op", (st.ctx, st.svc_setup, (NODE_NAME, "call", -1, "svc_setup", ())))
     ops = sorted(enumerate(plan["ops"]), key=lambda x: (x[1]["t"], x[0]))
     for idx, op in ops:
         k, t = op["k"], op["t"]
@@ -434,6 +486,14 @@ def execute(plan):
             sim.inject(t, r.addr, NODE_ADDR, op["ch"], data)
         elif k == "raw":
             sim.inject(t, rogues[op["p"]].addr, NODE_ADDR, op["ch"], bytes.fromhex(op["hex"]))
+        elif k == "req":
+            # SOME/IP message(s) for the service endpoint, coalesced into one datagram
+            data = b"".join(
+                refdec.enc_someip(m["svc"], m["method"], m["client"], m["session"], m["iface"], m["mtype"], m["rc"], bytes.fromhex(m.get("payload", "")))
+                for m in op["msgs"]
+            ) + bytes.fromhex(op.get("tail", ""))
+            src = rogues[op["p"]].addr if "port" not in op else (rogues[op["p"]].addr[0], op["port"])
+            sim.inject(t, src, SVC_ADDR, op["ch"], data)
         elif k == "preboot":
             rogues[op["p"]].reset()
         elif k == "busy":
